@@ -13,6 +13,8 @@ def plan(tier):
           (PG.saturate_resize(2, 3, 0.05), 1, PT), (PG.two_submitters(2, 0.05), 1, PT),
           (PG.saturate(2, 2, None, "reusable"), 1, PT), (PG.saturate_partial_drain(3), 1, PT),
           (PG.saturate_partial_drain(2), 1, PT)]
+    pl += [(PG.respawn_race(2), 2, dict(kinds=("T", "P"), t_scope="parent:main", p_scope="parent:",
+                                        p_when="_adjust_process_count"))]
     if tier == "thorough":
         pl += [(PG.saturate(2, 1, 0.05), 2, PT), (PG.saturate_resize(3, 1), 2, dict(kinds=("P",))),
                (PG.saturate_after_idle(2), 2, dict(kinds=("T",)))]
